@@ -18,6 +18,7 @@ import Driver.Util
   codec <name as ,-separated code points>                           -> raw | gz | bz2 | zst
   rd <class> <endian> <out dtype> <shape> <data file length>   -> ok <shape> | ERR:OSError
   opener <name as ,-separated code points>     -> <codec opened for 'wb'> <codec opened for 'rb'>
+  hshape <class> <shape>      -> dims=[dim[1..ndim]] glmin=<n> shape=[get_data_shape()] | ERR:HeaderDataError
   mghshape <shape>            -> <image shape> <header shape | ERR:ValueError> <ok | ERR:HeaderDataError>
 -/
 namespace Nb.Drv.C01
@@ -44,6 +45,27 @@ def errName : Err → String
 
 def lookupClass (name : String) : Option (String × Nat × Nat × Nat × Bool × Bool) :=
   (Gen.classes.find? (fun c => c.1 = name)).map (·.2)
+
+def ruleOfName (s : String) : Option ShapeRule :=
+  if s = "analyze" then some .analyze else if s = "nifti1" then some .nifti1
+  else if s = "nifti2" then some .nifti2 else none
+
+/-- (rule, max of `dim`, max of `glmin`) of a class, from the regenerated table -/
+def lookupShapeRule (name : String) : Option (ShapeRule × Nat × Nat) :=
+  match Gen.shapeRules.find? (fun c => c.1 = name) with
+  | some (_, r, dm, gm) => (ruleOfName r).map (fun r => (r, dm, gm))
+  | none => none
+
+/-- shape the loaded image has: `get_data_shape` of what `set_data_shape` stored -/
+def headerShape (cls : String) (shape : List Nat) : Option (Except Err (List Nat)) :=
+  match lookupShapeRule cls with
+  | none => none
+  | some (r, dm, gm) =>
+      some (match setShape r dm gm shape with
+        | .error er => .error er
+        | .ok f => match getShape r f with
+          | .error er => .error er
+          | .ok hs => .ok (hs.map Int.toNat))
 
 def codecTable : List (String × Codec) := codecTableOf Gen.compressExtMap
 
@@ -107,15 +129,20 @@ def runRt (cls : String) (e : Endian) (t : DType) (offset : Option Nat) (shape :
       let off := match offset with
         | none => defOff
         | some o => if layout = "single" ∧ o = 0 then defOff else o
+      match headerShape cls shape with
+      | none => "bad-op"
+      | some (.error er) => errName er
+      | some (.ok hshape) =>
       if hlen > off then "ERR:HeaderDataError"
       else
         if again then
+          if hshape ≠ shape then "bad-op" else
           match resave (List.replicate hlen 1) off e t.cw t.k shape (arrOfC shape xa) true with
           | .error er => errName er
           | .ok file => report file hlen off re rt shape
         else
           let file := writeFile (List.replicate hlen 1) off e t.cw shape (arrOfC shape xa)
-          report file hlen off re rt shape
+          report file hlen off re rt hshape
 
 /-- the save of `vals` (already-cast elements `raw`, or integers the model casts after taking the scaling
     decision) with the writer given `(t, e)` and the reader `(rt, re)` -/
@@ -201,6 +228,17 @@ def handle : List String → String
           | .ok (sh, _) => "ok " ++ showList sh
           | .error er => errName er
       | _, _, _, _, _ => "bad-op"
+  | ["hshape", cls, shape] =>
+      match parseNatList? shape, lookupShapeRule cls with
+      | some shape, some (r, dm, gm) =>
+          match setShape r dm gm shape with
+          | .error er => errName er
+          | .ok f =>
+              "dims=" ++ showList f.dims ++ " glmin=" ++ toString f.glmin ++ " shape=" ++
+                (match getShape r f with
+                 | .ok hs => showList hs
+                 | .error er => errName er)
+      | _, _ => "bad-op"
   | ["mghshape", shape] =>
       match parseNatList? shape with
       | some shape =>
